@@ -48,6 +48,9 @@ var bufNameRe = regexp.MustCompile(`(?i)^(buf|pool)`)
 type fnSummary struct {
 	wParams   map[int]bool
 	wParamWit map[int]string
+	// uParams: parameters handed (directly or through module callees) to a function value the analysis cannot resolve;
+	// they may be written there. Only rules that ask "is it ever written" use it (OUTPARAMW), never those that accuse.
+	uParams map[int]bool
 	wBufs     map[string]string // path -> witness
 	retBuf    string
 }
@@ -165,7 +168,7 @@ func effectsOf(p *core.Program) *effects {
 			return true
 		})
 		e.decls[fn] = d
-		e.sums[fn] = &fnSummary{wParams: map[int]bool{}, wParamWit: map[int]string{}, wBufs: map[string]string{}}
+		e.sums[fn] = &fnSummary{wParams: map[int]bool{}, wParamWit: map[int]string{}, wBufs: map[string]string{}, uParams: map[int]bool{}}
 		if fd.Recv != nil {
 			e.byName[fn.Name()] = append(e.byName[fn.Name()], fn)
 		}
@@ -521,7 +524,23 @@ func (e *effects) solve() {
 					return true
 				}
 				cs := e.callees(info, call)
+				addU := func(a ast.Expr) {
+					for _, o := range e.origins(d, a, 0) {
+						if !o.recv && !s.uParams[o.param] {
+							s.uParams[o.param] = true
+							changed = true
+						}
+					}
+				}
 				if len(cs) == 0 {
+					// a call through a function value (a parameter, a closure kept in a local)
+					if tv, ok := info.Types[call.Fun]; ok && !tv.IsType() && !tv.IsBuiltin() {
+						if _, isSig := tv.Type.Underlying().(*types.Signature); isSig && calleeFunc(info, call) == nil {
+							for _, a := range call.Args {
+								addU(a)
+							}
+						}
+					}
 					return true
 				}
 				onRecv := e.recvRooted(d, call)
@@ -529,6 +548,11 @@ func (e *effects) solve() {
 					cs := e.sums[cf]
 					if cs == nil {
 						continue
+					}
+					for j := range cs.uParams {
+						if j < len(call.Args) {
+							addU(call.Args[j])
+						}
 					}
 					for j := range cs.wParams {
 						if j < len(call.Args) {
@@ -1107,6 +1131,10 @@ func scanOutParamW(c *core.Ctx) []ob {
 			key := fmt.Sprintf("OUTPARAMW:%s#%s", fkey, p.Name())
 			if e.sums[f].wParams[i] {
 				out = append(out, okOb("OUTPARAMW", key, c.Rel(d.fd.Pos()), "written: "+e.sums[f].wParamWit[i], true))
+				continue
+			}
+			if e.sums[f].uParams[i] {
+				out = append(out, okOb("OUTPARAMW", key, c.Rel(d.fd.Pos()), "handed to a function value (through a helper of the module) that may write it", false))
 				continue
 			}
 			// a metadata-only or header-only result (Resize, field stores) also counts as producing the output
